@@ -416,8 +416,72 @@ def r5_push_advance(c, facts):
     c.floor(R, 'attach sites (Vec<ParserMatch>::push of a sub-parse result)', n, 10)
 
 
+def r8_diag_span(c, facts):
+    """the span published for a compiler error is the error's own span (module and range together); a synthetic span
+    is only made up when the error has none"""
+    R = c.rule('C11.R8', 'DIAG-SPAN: a diagnostic keeps the span of the error it reports: module and byte range are never recombined')
+    lc = c.anchor(R, 'oal_client::lsp::Workspace::log_compiler_error')
+    idx = MF.defs_index(lc)
+    le = P.call_blocks(lc, 'Workspace::log_error')
+    sp = P.call_blocks(lc, 'Error::span')
+    if not le or not sp:
+        c.bad(R, 'log_compiler_error:shape', 'log_compiler_error no longer logs err.span()')
+        return
+    sl = MF.slice_back(lc, le[0][1]['args'][1]['l'], idx)
+    names = {P.strip(n).split('::')[-1] for n, _, _ in sl['calls']}
+    direct_new = [(b, t) for b, t in P.call_blocks(lc, 'span::Span::new')]
+    decomposed = names & {'range', 'locator', 'start', 'end'}
+    none_guarded = True
+    if direct_new:
+        # a Span::new in the body itself must sit on the None edge of err.span()
+        none_guarded = False
+        for b, blk in lc.blocks():
+            sw = blk['term']
+            if sw['t'] == 'switch' and 'l' in sw['discr']:
+                if any(P.strip(n).endswith('Error::span') for n, _, _ in MF.slice_back(lc, sw['discr']['l'], idx)['calls']):
+                    ee = P.enum_edges(sw)
+                    if '0' in ee and all(lc.dominates(ee['0'], nb) for nb, _ in direct_new):
+                        none_guarded = True
+    if 'span' in names and not decomposed and none_guarded:
+        c.ok(R, {'log_compiler_error': 'logs err.span() unchanged; (loc, 0..0) only when the error has no span'})
+    else:
+        c.bad(R, 'diagnostic-span-recombined:%s' % ','.join(sorted(decomposed) or ['Span::new']), 'log_compiler_error builds the logged span from parts (%s) instead of keeping err.span(): an error raised in an imported module is published in another module with byte offsets of the wrong text' % (sorted(decomposed) or 'an unconditional Span::new'))
+
+
+def r9_lex_total(c, facts):
+    """tokenize consumes the whole input: the only way out of its loop is the exhaustion of the lexer"""
+    R = c.rule('C11.R9', 'LEX-TOTAL: tokens and lexical errors cover the whole text: the tokenizing loop ends only when the lexer is exhausted')
+    tk = c.anchor(R, 'oal_syntax::lexer::tokenize')
+    nx = [(b, t) for b, t in P.call_blocks(tk, 'Iterator::next') if 'logos' in (t['args'][0].get('ty', '') if t['args'] else '') or 'Lexer' in (t['args'][0].get('ty', '') if t['args'] else '') or 'Spanned' in (t['args'][0].get('ty', '') if t['args'] else '')]
+    if not nx:
+        c.bad(R, 'tokenize:no-lexer-loop', 'tokenize no longer iterates the lexer')
+        return
+    nb, nt = nx[0]
+    body = {b for b in tk.reachable_from(nt['target']) if nb in tk.reachable_from(b)} | {nb}
+    # the switch on next()'s result
+    cur = nt['target']
+    sw = tk.mir['blocks'][cur]['term']
+    hops = 0
+    while sw['t'] != 'switch' and 'target' in sw and hops < 3:
+        cur = sw['target']; sw = tk.mir['blocks'][cur]['term']; hops += 1
+    exits = []
+    for b in sorted(body):
+        for x in tk.succ(b):
+            if x not in body and not tk.mir['blocks'][x].get('cleanup') and tk.mir['blocks'][x]['term']['t'] != 'unreachable':
+                exits.append((b, x))
+    allowed = {(cur, x) for x in tk.succ(cur)} if sw['t'] == 'switch' else set()
+    extra = [e for e in exits if e not in allowed]
+    if not extra:
+        c.ok(R, {'tokenize': 'the loop over the lexer has one exit: the lexer is exhausted', 'loop_blocks': len(body)})
+    else:
+        lines = sorted({tk.mir['blocks'][b]['term'].get('ln') for b, _ in extra if tk.mir['blocks'][b]['term'].get('ln')})
+        c.bad(R, 'tokenize:loop-left-early', 'tokenize can leave its loop before the lexer is exhausted (exit at line %s): the rest of the text is neither tokenized nor reported, and the parser accepts the prefix silently' % lines)
+
+
 def run(c, facts):
     import c16
+    c.run(r8_diag_span, facts)
+    c.run(r9_lex_total, facts)
     import c15
     sc = ['oal_model::span::utf8_to_char_index', 'oal_model::span::CharSpan::from']
     c16.run_units(c, facts, rule_prefix='C11.U', scope=sc, must=sc, floors=False)
